@@ -518,6 +518,17 @@ pub fn thread_states(tag: &str) -> Vec<ThreadState> {
     out
 }
 
+/// Two samples of the server's threads show the same standstill: the same threads, all asleep in the same
+/// place, and none of those that wait for a lock or a condition was scheduled in between. A thread that waits
+/// for input (epoll: the main loop with nothing to read) may have been woken and gone back to waiting - the
+/// runtime does that several times a second - as long as every sample finds it there.
+pub fn same_standstill(a: &[ThreadState], b: &[ThreadState]) -> bool {
+    a.len() == b.len()
+        && a.iter().zip(b).all(|(x, y)| {
+            x.tid == y.tid && x.state == y.state && x.wchan.trim() == y.wchan.trim() && (x.switches == y.switches || (x.wchan.contains("ep_poll") && y.wchan.contains("ep_poll")))
+        })
+}
+
 /// true when, over `samples` samples `gap` apart, every server thread sleeps and none was
 /// scheduled in between
 pub fn all_blocked(tag: &str, samples: usize, gap: Duration) -> (bool, Vec<ThreadState>) {
@@ -528,7 +539,7 @@ pub fn all_blocked(tag: &str, samples: usize, gap: Duration) -> (bool, Vec<Threa
     for _ in 1..samples {
         std::thread::sleep(gap);
         let now = thread_states(tag);
-        if now != first {
+        if !same_standstill(&now, &first) {
             return (false, now);
         }
     }
